@@ -97,6 +97,11 @@ impl Property for C12 {
                 sc.world.stubs[i].nodes = NodesMode::ClosestPlus(extra);
             }
         }
+        // ids of nodes the victim will only ever know by hearsay (named at unreachable addresses)
+        let hearsay_ids: Vec<[u8; 20]> = sc.world.stubs.iter().flat_map(|s| match &s.nodes {
+            NodesMode::ClosestPlus(l) => l.iter().filter(|n| addr_class(&n.addr) == 5 && n.id != own).map(|n| n.id).collect::<Vec<_>>(),
+            _ => vec![],
+        }).collect();
         sc.reals.push(real);
         let t_start = *rng.pick(&[0u64, 0, 1_000]);
         sc.at(t_start, Op::Start { node: 0 });
@@ -116,7 +121,8 @@ impl Property for C12 {
                 1 => t_start + rng.range(0, 3_000),            // while bootstrapping
                 _ => t_start + rng.range(0, horizon),
             };
-            let id = adv_id(k);
+            // impostor: some queries claim the id of a hearsay-only node, from another address
+            let id = if !hearsay_ids.is_empty() && rng.chance(1, 3) { *rng.pick(&hearsay_ids) } else { adv_id(k) };
             let named: Vec<([u8; 20], SocketAddr)> = (0..rng.range(0, 8))
                 .map(|j| {
                     k += 1;
@@ -316,7 +322,7 @@ impl Property for C12 {
         v
     }
     fn rule(&self) -> &'static str {
-        "one real node (serving or read-only) with 2..20 stubs (0..2 of them configured as routers) whose accepted answers also name the node's own id, router addresses, duplicates and up to 40 unreachable addresses; 0..3 searches; an adversary sends 5..60 datagrams from unknown addresses while the node bootstraps / idles / searches: the four query kinds, responses with ids of length 0..32 != 8 (random, or derived from an id the node really used by appending or cutting bytes), and 8-byte ids whose action prefix is >= 2^32 (never handed out), some before any request was sent, each naming up to 8 further adversary identities and carrying unique values; message faults (drop, delay, duplicate, reorder, send errors, stalls) at swarm-drawn rates, plus a single-fault sweep; table dump and load_contacts sampled every 0.7..4.3 s. non-trivial = unsolicited datagrams were sent and the table held at least one node; distinct = distinct order digests"
+        "one real node (serving or read-only) with 2..20 stubs (0..2 of them configured as routers) whose accepted answers also name the node's own id, router addresses, duplicates and up to 40 unreachable addresses; 0..3 searches; an adversary sends 5..60 datagrams from unknown addresses while the node bootstraps / idles / searches: the four query kinds (some claiming the id of a node the victim only knows by hearsay), responses with ids of length 0..32 != 8 (random, or derived from an id the node really used by appending or cutting bytes), and 8-byte ids whose action prefix is >= 2^32 (never handed out), some before any request was sent, each naming up to 8 further adversary identities and carrying unique values; message faults (drop, delay, duplicate, reorder, send errors, stalls) at swarm-drawn rates, plus a single-fault sweep; table dump and load_contacts sampled every 0.7..4.3 s. non-trivial = unsolicited datagrams were sent and the table held at least one node; distinct = distinct order digests"
     }
     fn assumptions(&self) -> Vec<&'static str> {
         vec!["in-flight corruption is off in this family: adversary identities are recognised by value in table dumps", "forged responses that reuse a low, guessable action prefix or a timed-out id of a live search are deliberately not asserted (the statement does not cover them)"]
